@@ -1,6 +1,7 @@
 package engsim
 
 import (
+	"os"
 	"sort"
 
 	"verif/sim/core"
@@ -8,12 +9,24 @@ import (
 
 var Engine = core.Engine{Name: "engsim", Run: Run}
 
+// VERIF_ENGSIM_DEBUG=1: read the whole key universe after every step (to
+// localise a divergence while triaging a replay; changes the trace hash).
+var debugVerify = os.Getenv("VERIF_ENGSIM_DEBUG") != ""
+
 // Run executes one simulated run: every decision comes from c.Tape.
 func Run(c *core.RunCtx) {
 	s := &sim{c: c, t: c.Tape}
 	if s.setup() {
 		for i := 0; i < s.cf.Ops && !s.abort; i++ {
+			// a zero here ends the run: a truncated tape (the shrinker's
+			// first move) stops at once instead of padding with operations
+			if c.Tape.Choose(4*s.cf.Ops+8) == 0 {
+				break
+			}
 			s.step()
+			if debugVerify && !s.abort {
+				s.verifyAllKeys("debug-after-step")
+			}
 		}
 	}
 	s.finish()
@@ -27,6 +40,9 @@ func Run(c *core.RunCtx) {
 	}
 	if s.adversarial {
 		c.Count("runs.adversarial-keys", 1)
+	}
+	if s.emptyKeyRun {
+		c.Count("runs.empty-key-stored(no pebble)", 1)
 	}
 	// non-trivial: a multi-operation batch was committed, reads and iterators
 	// were compared and at least one environment event happened in between
